@@ -8,9 +8,11 @@ import (
 	"crypto/x509"
 	"crypto/x509/pkix"
 	"encoding/hex"
+	"errors"
 	"fmt"
 	"math/big"
 	"runtime"
+	"slices"
 	"testing"
 	"time"
 
@@ -37,7 +39,7 @@ func init() {
 	register(&Prop{
 		ID:    "C20",
 		Level: "exploration",
-		Nodes: func(tier string) []string { return []string{"race", "race-noclmul", "race-noaes"} },
+		Nodes: func(tier string) []string { return []string{"race", "race-noclmul", "race-noaes", "race-purego"} },
 		Cross: true,
 		Gen:   genC20,
 		Exec:  execC20,
@@ -201,7 +203,10 @@ func genC20(r *sim.Rand, tier string) *sim.Program {
 
 // c20World holds the shared objects of a run; a second instance built from
 // the same seed provides the private fresh objects of the sequential oracle.
+var c20Usages = []smx509.ExtKeyUsage{smx509.ExtKeyUsageCodeSigning, smx509.ExtKeyUsageEmailProtection, smx509.ExtKeyUsageTimeStamping, smx509.ExtKeyUsageOCSPSigning, smx509.ExtKeyUsageClientAuth, smx509.ExtKeyUsageServerAuth}
+
 type c20World struct {
+	usages        []smx509.ExtKeyUsage // the application's shared list of requested key usages
 	seed          []byte
 	sm2Priv       *sm2.PrivateKey
 	sm2Peer       *sm2.PrivateKey
@@ -271,7 +276,7 @@ func opReader(seed []byte, opseed int) *sim.ScriptReader {
 
 // newC20World creates fresh objects. groups limits which (expensive) objects are built.
 func newC20World(seed []byte, need map[string]bool, withArtefacts *c20World) (*c20World, error) {
-	w := &c20World{seed: seed}
+	w := &c20World{seed: seed, usages: slices.Clone(c20Usages)}
 	var err error
 	if need["sm2"] {
 		if w.sm2Priv, err = sm2.NewPrivateKey(scalarFrom(seed, "sm2d")); err != nil {
@@ -395,16 +400,37 @@ func c20Do(w *c20World, kind string, opseed int, msg []byte) (out []byte) {
 	rd := opReader(w.seed, opseed)
 	switch kind {
 	case "sm2.sign":
+		if opseed&4 != 0 {
+			// message signing with the default identifier through the crypto.Signer method
+			sig, err := w.sm2Priv.Sign(rd, msg, sm2.DefaultSM2SignerOpts)
+			if err != nil {
+				return errb(err)
+			}
+			if !sm2.VerifyASN1WithSM2(&w.sm2Priv.PublicKey, nil, msg, sig) {
+				return errb(errors.New("a signature made with the default identifier does not verify"))
+			}
+			return sig
+		}
 		h := sm3.Sum(msg)
 		sig, err := w.sm2Priv.Sign(rd, h[:], nil)
 		if err != nil {
 			return errb(err)
 		}
+		if !sm2.VerifyASN1(&w.sm2Priv.PublicKey, h[:], sig) {
+			return errb(errors.New("a digest signature does not verify"))
+		}
 		return sig
 	case "sm2.signsm2":
-		sig, err := w.sm2Priv.SignWithSM2(rd, msg[:len(msg)/2], msg)
+		uid := msg[:len(msg)/2]
+		if opseed&2 != 0 {
+			uid = nil // the default identifier
+		}
+		sig, err := w.sm2Priv.SignWithSM2(rd, uid, msg)
 		if err != nil {
 			return errb(err)
+		}
+		if !sm2.VerifyASN1WithSM2(&w.sm2Priv.PublicKey, uid, msg, sig) {
+			return errb(errors.New("a signature made by SignWithSM2 does not verify"))
 		}
 		return sig
 	case "sm2.verify":
@@ -425,16 +451,24 @@ func c20Do(w *c20World, kind string, opseed int, msg []byte) (out []byte) {
 		return pt
 	case "sm2.kx":
 		// the shared private key initiates an exchange with a private responder
-		ini, err := sm2.NewKeyExchange(w.sm2Priv, &w.sm2Peer.PublicKey, []byte("A"), []byte("B"), 32, true)
+		idA, idB := []byte("A"), []byte("B")
+		if opseed&1 != 0 {
+			idA, idB = nil, nil // both sides use the default identifier
+		}
+		ini, err := sm2.NewKeyExchange(w.sm2Priv, &w.sm2Peer.PublicKey, idA, idB, 32, true)
 		if err != nil {
 			return errb(err)
 		}
 		peerCopy, _ := sm2.NewPrivateKey(w.sm2Peer.D.FillBytes(make([]byte, 32)))
 		selfPub := ecdsa.PublicKey{Curve: w.sm2Priv.Curve, X: w.sm2Priv.X, Y: w.sm2Priv.Y}
-		rsp, err := sm2.NewKeyExchange(peerCopy, &selfPub, []byte("B"), []byte("A"), 32, true)
+		rsp, err := sm2.NewKeyExchange(peerCopy, &selfPub, idB, idA, 32, true)
 		if err != nil {
 			return errb(err)
 		}
+		// the protocol objects are single-user and are wiped when the session is over; the long-term key they were made
+		// from is shared
+		defer ini.Destroy()
+		defer rsp.Destroy()
 		ra, err := ini.InitKeyExchange(rd)
 		if err != nil {
 			return errb(err)
@@ -451,7 +485,7 @@ func c20Do(w *c20World, kind string, opseed int, msg []byte) (out []byte) {
 		if err != nil {
 			return errb(err)
 		}
-		return append(k1, k2...)
+		return append(append([]byte{}, k1...), k2...)
 	case "sm2.ecdh":
 		k, err := w.sm2Priv.ECDH()
 		if err != nil {
@@ -592,7 +626,21 @@ func c20Do(w *c20World, kind string, opseed int, msg []byte) (out []byte) {
 		h.Write(msg)
 		return h.Sum(nil)
 	case "pool.verify":
-		chains, err := w.leaf.Verify(smx509.VerifyOptions{Roots: w.roots, Intermediates: w.inters, CurrentTime: c20VerifyTime, KeyUsages: []smx509.ExtKeyUsage{smx509.ExtKeyUsageAny}})
+		opts := smx509.VerifyOptions{Roots: w.roots, Intermediates: w.inters, CurrentTime: c20VerifyTime, KeyUsages: []smx509.ExtKeyUsage{smx509.ExtKeyUsageAny}}
+		if opseed&1 != 0 {
+			opts.KeyUsages = w.usages // ONE options template of the application, shared by all tasks: a list of six usages
+		}
+		chains, err := w.leaf.Verify(opts)
+		if opseed&1 != 0 {
+			// the outcome depends on the fixture's extended key usages; what matters is that it is the same as sequentially,
+			// and that the application's list is still what it was
+			if !slices.Equal(w.usages, c20Usages) {
+				return errb(fmt.Errorf("Verify changed the caller's VerifyOptions.KeyUsages to %v", w.usages))
+			}
+			if err != nil {
+				return []byte("refused: " + err.Error())
+			}
+		}
 		if err != nil {
 			return errb(err)
 		}
